@@ -11,6 +11,8 @@ from .run import Check, Section
 
 _dir = None
 NS, NV = 6, 6
+SAMPLES = [f"s{i}" for i in range(NS - 1)] + ["twin A"]  # names are tab-delimited everywhere: one holds a blank
+HAPS = ["hapA", "hapB", "hapC", "hapD", "block 7"]
 
 
 def setup():
@@ -20,15 +22,15 @@ def setup():
     _dir = C.scratch_dir("c19")
     d = _dir
     rnd = random.Random(19)
-    samples = [f"s{i}" for i in range(NS)]
+    samples = list(SAMPLES)
     variants = [(f"snp{chr(65+j)}", "1", 10 * (j + 1), ["A", "C"]) for j in range(NV)]
     data = [[(rnd.randint(0, 1), rnd.randint(0, 1), 1) for _ in variants] for _ in samples]
     GF.write_vcf_text(d / "g.vcf", samples, variants, data)
     GF.compress_index(d / "g.vcf", d / "g.vcf.gz")
     GF.write_pgen(d / "g", samples, variants, data)
     with open(d / "h.hap", "w") as f:
-        f.write("H\t1\t10\t31\thapA\nH\t1\t20\t51\thapB\nH\t1\t40\t61\thapC\nH\t1\t10\t11\thapD\n")
-        f.write("V\thapA\t10\t11\tsnpA\tC\nV\thapA\t30\t31\tsnpC\tA\nV\thapB\t20\t21\tsnpB\tC\nV\thapB\t50\t51\tsnpE\tC\nV\thapC\t40\t41\tsnpD\tA\nV\thapC\t60\t61\tsnpF\tC\nV\thapD\t10\t11\tsnpA\tA\n")
+        f.write("H\t1\t10\t31\thapA\nH\t1\t20\t51\thapB\nH\t1\t40\t61\thapC\nH\t1\t10\t11\thapD\nH\t1\t20\t41\tblock 7\n")
+        f.write("V\thapA\t10\t11\tsnpA\tC\nV\thapA\t30\t31\tsnpC\tA\nV\thapB\t20\t21\tsnpB\tC\nV\thapB\t50\t51\tsnpE\tC\nV\thapC\t40\t41\tsnpD\tA\nV\thapC\t60\t61\tsnpF\tC\nV\thapD\t10\t11\tsnpA\tA\nV\tblock 7\t20\t21\tsnpB\tA\nV\tblock 7\t40\t41\tsnpD\tC\n")
     with open(d / "hb.hap", "w") as f:  # with betas, for simphenotype
         f.write("#\torderH\tbeta\n#\tversion\t0.2.0\n#H\tbeta\t.2f\tEffect size\n")
         f.write("H\t1\t10\t31\thapA\t0.50\nH\t1\t20\t51\thapB\t-0.25\nH\t1\t40\t61\thapC\t0.10\n")
@@ -83,7 +85,7 @@ def write_list(path, items):
 def gen(rng, tier):
     n = 60 if tier == "quick" else 1200
     kinds = ["transform", "transform", "simphenotype", "ld", "ld", "index", "clump", "simgenotype", "karyogram", "both_forms"]
-    haps, snps, samples = ["hapA", "hapB", "hapC", "hapD"], [f"snp{chr(65+j)}" for j in range(NV)], [f"s{i}" for i in range(NS)]
+    haps, snps, samples = list(HAPS), [f"snp{chr(65+j)}" for j in range(NV)], list(SAMPLES)
     for t in range(n):
         k = kinds[t % len(kinds)]
         c = {"kind": k, "short": rng.random() < 0.5, "pgen": rng.random() < 0.3}
@@ -118,7 +120,8 @@ def gen(rng, tier):
         c["samples"] = smp
         c["sort"] = rng.random() < 0.6
         c["failing"] = k == "index" and rng.random() < 0.5
-        c["absent_sample"] = k == "karyogram" and rng.random() < 0.4
+        c["absent_sample"] = k == "karyogram" and rng.random() < 0.5
+        c["absent_name"] = rng.choice(["Sample_9", "Sample", "Sample_", "Sample_1_1", "Sam", "sample_1"])
         c["seed"] = rng.randrange(2**31)
         yield c
 
@@ -237,7 +240,8 @@ def impl(case):
         from haptools.karyogram import PlotKaryogram
         from haptools.logging import getLogger
 
-        name = "Sample_9" if case["absent_sample"] else "Sample_2"
+        # absent names: an unrelated one, an underscore-delimited prefix of the present names, a present name's strand ID
+        name = case.get("absent_name", "Sample_9") if case["absent_sample"] else "Sample_2"
         with contextlib.redirect_stderr(io.StringIO()):
             res["cli_rep"] = run_cli(["karyogram", "--bp", d / "k.bp", "--sample", name, "--out", o / "a.png", "--colors", "YRI:red,CEU:blue"])
             res["cli_file"] = res["cli_rep"]
@@ -303,7 +307,7 @@ def oracle(case, obs):
             allowed = set(case["ids"]) | ({case["target"]} if case["target"] in known else set())
         else:
             listed = [l.split("\t")[4] for l in a if l.startswith("H\t")]
-            known = [h for h in ["hapA", "hapB", "hapC", "hapD"] if h != case["target"]]
+            known = [h for h in HAPS if h != case["target"]]
             allowed = set(case["ids"])
         extra = [x for x in listed if x not in allowed]
         if extra:
@@ -312,12 +316,12 @@ def oracle(case, obs):
         if lost:
             return f"ld did not list the requested IDs {lost} (listed {listed})"
     if k == "transform":
-        known_h = ["hapA", "hapB", "hapC", "hapD"]
+        known_h = list(HAPS)
         want = [h for h in known_h if case["ids"] is None or h in case["ids"]]
         got = [r[0] for r in a["records"]]
         if got != want:
             return f"transform listed {got} for requested IDs {case['ids']} (unknown IDs must be ignored, never replaced)"
-        ws = [s for s in [f"s{i}" for i in range(NS)] if case["samples"] is None or s in case["samples"]]
+        ws = [s for s in SAMPLES if case["samples"] is None or s in case["samples"]]
         if a["samples"] != ws:
             return f"transform output samples {a['samples']} for requested {case['samples']}"
         unknown = (case["ids"] and any(x.startswith("nosuchID") for x in case["ids"])) or (case["samples"] and "ghost" in case["samples"])
